@@ -2,7 +2,7 @@
    no Go panic, no fuel exhaustion, and the precondition reduced to its part
    about call heads and names. *)
 From Verif Require Import Lib.Base Model.Resolver Proofs.Resolver Proofs.ResolverSound Proofs.ResolverExact
-  Proofs.ResolverOrder Proofs.ResolverFlat Proofs.ResolverNoPanic Proofs.ResolverTopo.
+  Proofs.ResolverOrder Proofs.ResolverFlat Proofs.ResolverNoPanic Proofs.ResolverTopo Proofs.ResolverBound.
 Open Scope Z_scope.
 
 (* the only possible outcomes for a program that meets the precondition *)
@@ -88,4 +88,36 @@ Proof.
   - rewrite (pass_loop_mono P order cut d s4 _ _ E ltac:(congruence)). exact H.
   - rewrite (pass_loop_mono P order cut d s4 _ _ E ltac:(discriminate)). exact H.
   - rewrite (pass_loop_mono P order cut d s4 _ _ E ltac:(discriminate)). exact H.
+Qed.
+
+(* ---------- small programs: the guard becomes static ---------------------------------- *)
+
+Theorem resolve_cut_no_cutoff cut pi P :
+  names_ok P -> 2 * key_count P <= Z.of_nat cut -> resolve_cut cut pi P <> RErr ETooManyIter.
+Proof.
+  intros Hne Hk. unfold resolve_cut. destruct (first_dup [] (fnames P)) eqn:Ed; [discriminate|].
+  destruct (ordered_funcs pi P) as [order|]; [|discriminate].
+  apply resolve_order_no_cutoff; [apply (first_dup_none _ _ Ed) | exact Hne | exact Hk].
+Qed.
+
+Theorem main_exact_small cut pi P :
+  perm_oracle pi -> wf0 P = true -> 2 * key_count P <= Z.of_nat cut ->
+  ((exists F, resolve_cut cut pi P = ROk F) <-> sat P).
+Proof.
+  intros Hpi Hwf0 Hk. apply main_exact; [exact Hpi | exact Hwf0|].
+  apply resolve_cut_no_cutoff; [|exact Hk].
+  destruct (wf_parts P (wf0_wf P Hwf0)) as [_ [_ [Hne _]]]. exact Hne.
+Qed.
+
+Theorem main_order_independent_small cut pi pi' P P' :
+  perm_oracle pi -> perm_oracle pi' -> wf0 P = true -> reordered P P' ->
+  2 * key_count P <= Z.of_nat cut -> 2 * key_count P' <= Z.of_nat cut ->
+  ((exists F, resolve_cut cut pi P = ROk F) <-> (exists F', resolve_cut cut pi' P' = ROk F')) /\
+  (forall F F', resolve_cut cut pi P = ROk F -> resolve_cut cut pi' P' = ROk F' ->
+                forall k, rho_of (fin_types F') k = rho_of (fin_types F) k).
+Proof.
+  intros Hpi Hpi' Hwf0 Hre Hk Hk'.
+  pose proof (wf0_wf P Hwf0) as Hwf. destruct (wf_parts P Hwf) as [_ [Hnd [Hne _]]].
+  pose proof (reorder_wf P P' Hre Hnd Hwf) as Hwf'. destruct (wf_parts P' Hwf') as [_ [_ [Hne' _]]].
+  apply main_order_independent; try assumption; apply resolve_cut_no_cutoff; assumption.
 Qed.
